@@ -62,9 +62,14 @@ int main(int argc, char** argv)
 				XdlParser parser; parser.parse(doc.substr(0, cut).c_str()); parser.parse(doc.substr(cut).c_str()); parser.parse(" "); Var w = parser.value();
 				if (!(w == whole) || !w.ok()) { printf("REPRODUCED feeding document %u in two chunks cut at %d differs from feeding it whole\n", d, (int)cut); return 1; } } } }
 		// decode then encode (compact JSON) gives the same text back: values following other values in arrays, empty strings, nested objects
-		{ const char* docs2[] = { "[1,{\"a\":2}]", "[\"abc\",\"\"]", "[12,\"\",3]", "[true,{\"k\":[\"x\",\"\",{}]},\"\",null]", "{\"o\":{\"b\\u0041\":1}}", "{\"k\\u0041\":[\"\\u0042\"]}", "[\"z\",{},[],\"\"]" };
-		  const char* want2[] = { "[1,{\"a\":2}]", "[\"abc\",\"\"]", "[12,\"\",3]", "[true,{\"k\":[\"x\",\"\",{}]},\"\",null]", "{\"o\":{\"bA\":1}}", "{\"kA\":[\"B\"]}", "[\"z\",{},[],\"\"]" };
+		{ const char* docs2[] = { "[1,{\"a\":2}]", "[\"abc\",\"\"]", "[12,\"\",3]", "[true,{\"k\":[\"x\",\"\",{}]},\"\",null]", "{\"o\":{\"b\\u0041\":1}}", "{\"k\\u0041\":[\"\\u0042\"]}", "[\"z\",{},[],\"\"]", "{\"a\":1\n,\"b\":2}", "[1\n,2\n ,3]", "{\"a\":[1\n,2]\n\t,\"b\":{\"c\":null\n,\"d\":\"x\"}}" };
+		  const char* want2[] = { "[1,{\"a\":2}]", "[\"abc\",\"\"]", "[12,\"\",3]", "[true,{\"k\":[\"x\",\"\",{}]},\"\",null]", "{\"o\":{\"bA\":1}}", "{\"kA\":[\"B\"]}", "[\"z\",{},[],\"\"]", "{\"a\":1,\"b\":2}", "[1,2,3]", "{\"a\":[1,2],\"b\":{\"c\":null,\"d\":\"x\"}}" };
 		  for (unsigned i = 0; i < sizeof(docs2) / sizeof(docs2[0]); i++) { Var v = Json::decode(docs2[i]); String back = v.ok() ? Json::encode(v) : String("(invalid)"); if (back != want2[i]) { printf("REPRODUCED Json::decode(%s) re-encodes as %s\n", docs2[i], *back); return 1; } } }
+		// bare top-level literals and numbers (completed by the flush in decode), several \\u escapes in one document
+		{ struct { const char* t; int kind; } tops[] = { { "true", 1 }, { "false", 1 }, { "null", 2 }, { " true", 1 }, { "12", 3 }, { "-1.5e3", 3 }, { "\"s\"", 4 } };
+		  for (auto& t : tops) { Var v = Json::decode(t.t); bool ok = t.kind == 1 ? v.is(Var::BOOL) : t.kind == 2 ? v.is(Var::NUL) : t.kind == 3 ? v.is(Var::NUMBER) : v.is(Var::STRING); if (!ok) { printf("REPRODUCED Json::decode(\"%s\") does not give the top-level value\n", t.t); return 1; } }
+		  Var u = Json::decode("[\"a\\u0001b\\u0002c\\u00e9\\u0003\",{\"k\\u0004\\u0005\":\"\\ud83d\\ude00\\u0006\"}]"); std::string s0 = u.ok() ? std::string(*u[0].toString(), u[0].toString().length()) : std::string("(invalid)");
+		  if (s0 != std::string("a\x01" "b\x02" "c\xC3\xA9\x03") || !u[1].has("k\x04\x05") || std::string(*u[1]["k\x04\x05"].toString()) != "\xF0\x9F\x98\x80\x06") { printf("REPRODUCED several \\u escapes in one document decode wrongly (first string has %d bytes)\n", (int)s0.size()); return 1; } }
 		// the JSON two-character escapes
 		{ Var v = Json::decode("[\"\\\" \\\\ \\/ \\b \\f \\n \\r \\t\"]"); if (!v.ok() || v.length() != 1 || std::string(*v[0].toString()) != "\" \\ / \b \f \n \r \t") { printf("REPRODUCED JSON escapes do not decode to their characters\n"); return 1; } }
 		// floats and doubles come back bit-exact in exact mode: neighbours of powers of 2 and 10, and a sweep of bit patterns
